@@ -10,15 +10,15 @@ cfg = {'shape': [2, 3, 2], 'hasw': True, 'op': 'cp', 'rank': [2], 'bad': 'none',
        'fshapes': [[2, 2], [3, 2], [2, 2]], 'wlen': 2, 'coreshape': [], 'pshapes': [], 'dl': 0, 'pden': 1, 'skip': -1, 'tr': False, 'modes': [],
        'mix': 'none', 'dens': [1, 1, 1], 'cden': 1, 'imk': 0, 'outdtype': 'float64', 'dtypes': ['float64'] * 3,
        'late': False, 'mag': 0, 'bfshapes': [], 'bcoreshape': [], 'bpshapes': [], 'bwlen': 0,
-       'wshape': [2], 'tmag': 0, 'zero': 'none', 'alldtype': 'float64'}
+       'wshape': [2], 'tmag': 0, 'zero': 'none', 'alldtype': 'float64', 'pnear': 0}
 ev = c03.execute({"id": "good", "cfg": cfg, "seed": 1, "k": 0, "draw": 0})
 evs = [ev]
 def mut(name, f):
     e = copy.deepcopy(ev); e["id"] = name; f(e); evs.append(e)
 mut("dense_entry", lambda e: e["runs"]["einsum_object"]["dense"]["data"].__setitem__(3, e["runs"]["einsum_object"]["dense"]["data"][3] + 1))
 mut("unf_swap", lambda e: e["runs"]["core_tuple"]["unf"].reverse())
-mut("norm", lambda e: e["runs"]["core_tuple"]["norm"].__setitem__("q3", e["runs"]["core_tuple"]["norm"]["q3"] + 1))
-mut("norm_nan", lambda e: e["runs"]["core_tuple"]["norm"].update(fin3=False, q3=0))
+mut("norm", lambda e: e["runs"]["core_tuple"]["norm"].update(q3=e["runs"]["core_tuple"]["norm"]["q3"] + 1, q6=e["runs"]["core_tuple"]["norm"]["q6"] + 1))
+mut("norm_nan", lambda e: e["runs"]["core_tuple"]["norm"].update(fin3=False, q3=0, fin6=False, q6=0))
 mut("rank", lambda e: e["runs"]["core_object"].__setitem__("rank", [3]))
 mut("input_changed", lambda e: e["in"]["fs"][1]["data"].__setitem__(0, -e["in"]["fs"][1]["data"][0] or 1))
 mut("missing_field", lambda e: e["runs"]["core_object"].pop("vec"))
@@ -58,11 +58,19 @@ e20 = c03.execute({"id": "zero_good", "cfg": cfg10, "seed": 1, "k": 0, "draw": 0
 e21 = copy.deepcopy(e20); e21["id"] = "zero_norm_eps"; e21["runs"]["core_tuple"]["norm"]["iszero"] = False; evs.append(e21)
 cfg11 = dict(cfg, tmag=-30)
 e22 = c03.execute({"id": "tmag_good", "cfg": cfg11, "seed": 1, "k": 0, "draw": 0}); evs.append(e22)
+cfg12 = dict(cfg3, bad="none", at=0, pnear=1)                                   # projections times (1 + 2^-18): valid
+e23 = c03.execute({"id": "pnear_good", "cfg": cfg12, "seed": 1, "k": 0, "draw": 0}); evs.append(e23)
+e24 = copy.deepcopy(e23); e24["id"] = "pnear_norm_from_factors"
+e24["runs"]["core_object"]["norm"]["q6"] = int(round(e24["runs"]["core_object"]["norm"]["q6"] * (1 - 2 * 2.0 ** -18))); evs.append(e24)
+cfg13 = dict(cfg4, bad="fcols", at=1, dl=-1, skip=1, fshapes=[[2, 1], [3, 1], [2, 2]])      # invalid pair, factor 1 applied, factor 2 skipped
+e25 = c03.execute({"id": "optbad_good", "cfg": cfg13, "seed": 1, "k": 0, "draw": 0}); evs.append(e25)
+e26 = copy.deepcopy(e25); e26["id"] = "optbad_converted"; e26["runs"]["einsum_convert"]["rejected"] = False; evs.append(e26)
 rej = chk.validate("FactorizedTrace", evs)
 for r in sorted(rej): print(r)
 print("machinery:", chk.machinery)
 ids = {r[0] for r in rej}
-good = {"good", "inv_good", "inv_p2_good", "opt_good", "mix_good", "late_good", "late_inv_good", "mag_good", "wshape_good", "zero_good", "tmag_good"}
+good = {"good", "inv_good", "inv_p2_good", "opt_good", "mix_good", "late_good", "late_inv_good", "mag_good", "wshape_good", "zero_good", "tmag_good",
+        "pnear_good", "optbad_good"}
 assert not chk.machinery and not (ids & good) and len(ids) == len(evs) - len(good), ("self-test failed", ids & good)
 print("OK: %d corrupted events rejected, %d genuine events accepted" % (len(ids), len(good)))
 shutil.rmtree(chk.work)
